@@ -364,4 +364,86 @@ def harnesses(E, tier):
                 lambda I: z3.And(pre_inv(I, True), arg_ok(I, True), I["epoch"] == I["rt"], I["entries"] == 6), sym("insert"), nat("insert"), specO,
                 lambda I, O: [] if O["panic"] or O["hang"] else [("a key lands in the upper half (home 8)", z3.Or(*[live(k) for k in O["keys"][8:]])), ("new key", z3.Not(present(KV(I)[0], I["key"])))],
                 samples("insert"), need=["a key lands in the upper half (home 8)", "new key"], max_steps=60000, depth=8, qfbv=True))
+    hs.append(history16(E, mk_empty=lambda it, I: mk_table_any(E, it, [], [], 0, I["rt"], I["rt"]), read=read, optval=optval))
     return hs
+
+
+FINDING_KEY = "table/tombstones-fill-table/cap16"
+
+
+def mk_table_any(E, it, K, V, entries, epoch, rt):
+    ents = [E.L.make(WL, "HashMapEntry", key=E.addr(k), value=Int(U(v), "u64")) for k, v in zip(K, V)]
+    tbl = E.L.make(WL, "ObjectHashMap", data=G.mk_box_slice(ents), entries=Int(U(entries), "usize"),
+                   capacity=Int(len(K), "usize"), gc_epoch=Int(U(epoch), "usize"))
+    it.hooks["get_runtime"] = lambda it_, ctx_, fn, args: Ref(Cell(Opaque("runtime"), "rt"))
+    it.hooks["Runtime::gc_epoch"] = lambda it_, ctx_, fn, args: Int(U(rt), "usize")
+    return Cell(tbl, "table")
+
+
+def history16(E, mk_empty, read, optval):
+    """Reachability of a table WITHOUT an EMPTY slot with real (8-aligned) keys, from the empty table, no collection
+    in between: 12 inserts (8 keys of home 0, 4 of home 8 at capacity 16), then 4 x (remove a home-0 key, insert a
+    home-8 key): overflow() counts live entries only, so the tombstones are never cleaned up and the last EMPTY slot
+    is used.  The skeleton of the history (which operation, low 12 bits of each key) is concrete, found by hand from
+    the failed induction of family B; the upper 52 bits of every key are symbolic."""
+    A = ["a%d" % i for i in range(8)]
+    B = ["b%d" % i for i in range(8)]
+    ins = [(n, "usize") for n in A + B + ["x", "rt"]]
+    low = {("a%d" % i): 0x000 + 16 * i for i in range(8)}
+    low.update({("b%d" % i): 0x808 + 16 * i for i in range(8)})
+    low["x"] = 0xC00
+
+    def pre(I):
+        return z3.And(*[z3.And(I[n] & 0xFFF == v, ule(0x1000, I[n])) for n, v in low.items()])
+
+    def script():
+        ops = [("insert", a) for a in A] + [("insert", b) for b in B[:4]]
+        for i in range(4):
+            ops += [("remove", A[i]), ("insert", B[4 + i])]
+        return ops
+
+    def sym(ctx, it, I):
+        cell = mk_empty(it, I)
+        me = Ref(cell)
+        for op, n in script():
+            if op == "insert":
+                it.call(ctx, "ObjectHashMap::insert", [me, E.addr(I[n]), Int(bv(7), "u64")])
+            else:
+                it.call(ctx, "ObjectHashMap::remove", [me, E.addr(I[n])])
+        O = {}
+        O["keys"], O["vals"], O["entries"], O["capacity"], O["epoch"] = read(cell, ctx)
+        ctx.ex.max_steps = ctx.steps + 3000          # a probe of an absent key needs < 20 steps per slot
+        O["res_some"], O["res_val"] = optval(it.call(ctx, "ObjectHashMap::get", [me, E.addr(I["x"])]))
+        return O
+
+    def cmd(v):
+        ops = ["%s:%d" % (op, v[n]) + (":7" if op == "insert" else "") for op, n in script()]
+        return ["table", "-", 0, 0, v["rt"]] + ops + ["get:%d" % v["x"]]
+
+    def parse(r):
+        o = {"keys": [num(x) for x in r["keys"].split(",")], "vals": [0 if x == "-" else num(x) for x in r["values"].split(",")],
+             "entries": num(r["entries"]), "capacity": num(r["capacity"]), "epoch": num(r["gc_epoch"])}
+        t = r["op%d" % len(script())]
+        o["res_some"], o["res_val"] = (True, num(t[5:])) if t.startswith("Some:") else (False, 0)
+        return o
+
+    def spec(I, O):
+        if O["hang"]:
+            return [("tombstones use up every EMPTY slot (overflow() counts live entries only): get() of an absent key never returns", False)]
+        if O["panic"]:
+            return [("the history panics: " + O.get("msg", "")[:60], False)]
+        return [("no EMPTY slot is left after the history", z3.Or(*[k == 0 for k in O["keys"]])),
+                ("get() of a key that was never inserted returns Some", not O["res_some"]),
+                ("entries != live slots after the history", O["entries"] == cnt([live(k) for k in O["keys"]]))]
+
+    def samples(rng):
+        out = []
+        for _ in range(2):
+            v = {n: (rng.getrandbits(34) << 12) + 0x1000 + lo for n, lo in low.items()}
+            v["rt"] = rng.getrandbits(10)
+            out.append(v)
+        return out
+    h = H("table16/tombstones-fill-table", "ObjectHashMap: 20-operation history from the empty table (capacity 16), then get of an absent key", ins, pre,
+          sym, (cmd, parse), spec, lambda I, O: [("history executed", True)], samples, need=["history executed"], max_steps=200000, depth=8, qfbv=True)
+    h.fixed_key = FINDING_KEY
+    return h
